@@ -33,12 +33,14 @@ impl<T> SendBuffer<T> {
     /// [`SendBuffer`] can only buffer one frame at a time. If you write a new frame to the buffer before the previous
     /// frame is sent, the previous frame will be overwritten.
     pub fn write(&self, frame: T) {
-        self.tx_waker.wake_by(Signals::TRANSPORT);
-        #[cfg(gmquic_verif)]
-        sendbuf_verif::emit("notified");
+        // store first, then signal: a send task that is woken (or whose check races with this call)
+        // must find the frame, otherwise it goes back to sleep and nobody wakes it again
         *self.item.lock().unwrap() = Some(frame);
         #[cfg(gmquic_verif)]
         sendbuf_verif::emit("stored");
+        self.tx_waker.wake_by(Signals::TRANSPORT);
+        #[cfg(gmquic_verif)]
+        sendbuf_verif::emit("notified");
     }
 }
 
